@@ -23,7 +23,9 @@ Definition pws_note (c : pcase) : string :=
 Definition judge_pws_with (pick : ostate -> bool) (c : pcase) : verdict :=
   let '(st, shape) := judge_all (p_locals c) (p_cap c) (p_ops c) (p_impl c) in
   {| v_corr := o_sync st && shape; v_prop := pick st;
-     v_tags := map pws_tag_name (run_tags (init (p_locals c) (p_cap c)) (p_ops c) []);
+     (* "wf": the history satisfies the premise of the theorems ([wf_hist]) *)
+     v_tags := (if wf_hist (p_locals c) (p_cap c) (p_ops c) then ["wf"] else [])
+               ++ map pws_tag_name (run_tags (init (p_locals c) (p_cap c)) (p_ops c) []);
      v_note := pws_note c |}.
 
 Definition judge_pws_c03 := judge_pws_with o_c03.
